@@ -287,6 +287,18 @@ def projCheck (items : List String) (crs : String) (impl : String) : Option (Boo
         | _, _, _, _, _, _ => acc
       | _, _ => acc) none
 
+/-! ### corridor (C14): oracles arrive as tables -/
+def parseIdTable (s : String) : List (String × String) :=
+  if s.isEmpty then [] else (s.splitOn ";").filterMap fun it => match it.splitOn "=" with | [k, v] => some (k, v) | _ => none
+
+/-- all candidate results, one per distinct layer pair reported for a line voxel -/
+def corridorModels (lineS fitS closeS : String) (skips : Bool) : List String :=
+  let line := (commaSplit lineS).filterMap parseExt
+  let fits := (parseIdTable fitS).filterMap fun (_, v) => match v.splitOn ":" with | [a, b] => some (int! a, int! b) | _ => none
+  let closeTbl := parseIdTable closeS
+  let close (o : Ext) : Bool := (closeTbl.lookup o.id) == some "1"
+  (dedup fits).map fun (hv : Int × Int) => commaJoin (sortStrs ((corridorE line hv.1 hv.2 close skips).map Ext.id))
+
 def dispatch (op : String) (a : List String) : Option String :=
   match op, a with
   | "shift", [id, dx, dy, dv] => some (shift id (int! dx) (int! dy) (int! dv))
@@ -399,6 +411,12 @@ def dispatch (op : String) (a : List String) : Option String :=
   | "proj", [items, _] => some (projModel (commaSplit items) true)
   | "unproj", [items, _] => some (projModel (commaSplit items) false)
   | "projrt", [_, _, _, _] => some "OK"
+  | "corridor", [_, _, _, _, _, _, _, _, _, skips, lineS, fitS, closeS, neg] =>
+    -- the implementation picks an arbitrary line voxel for the clearance fit: the model offers one result per candidate
+    some (if lineS == "ERR" || neg == "1" then "ERR" else
+      let ms := corridorModels lineS fitS closeS (skips == "1")
+      ms.headD "NOFIT")
+  | "corridordet", _ => some "OK"
   | "ovE", [a, b] => some (showBool (overlapExt a b))
   | "ovEA", [a, b] => some (showBool (overlapExtArr (commaSplit a) (commaSplit b)))
   | "ovS", [a, b] => some (showBool (overlapSp a b))
@@ -553,6 +571,13 @@ partial def loop (h : IO.FS.Stream) (out : IO.FS.Stream) : IO Unit := do
     match dispatch op args with
     | none => out.putStrLn "U"
     | some m =>
+      let m := if op == "corridor" then
+          (match args with
+           | [_, _, _, _, _, _, _, _, _, skips, lineS, fitS, closeS, neg] =>
+             if lineS == "ERR" || neg == "1" then m
+             else if (corridorModels lineS fitS closeS (skips == "1")).contains impl then impl else m
+           | _ => m)
+        else m
       if m == impl then
         match (propCheck op args).orElse (fun _ => rejectCheck op args impl) with
         | none => out.putStrLn "A"
